@@ -168,9 +168,46 @@ type ProdState struct{ StreamCore }
 // ExchState is the exchange state.
 type ExchState struct{ StreamCore }
 
+// ProdStateNC / ExchStateNC are the same states without a cancel hook.
+type ProdStateNC struct{ StreamCore }
+type ExchStateNC struct{ StreamCore }
+
 func init() {
 	vgirpc.RegisterStateType(&ProdState{})
 	vgirpc.RegisterStateType(&ExchState{})
+	vgirpc.RegisterStateType(&ProdStateNC{})
+	vgirpc.RegisterStateType(&ExchStateNC{})
+}
+
+// Produce implements vgirpc.ProducerState.
+func (s *ProdStateNC) Produce(ctx context.Context, out *vgirpc.OutputCollector, cc *vgirpc.CallContext) error {
+	p := ProdState{s.StreamCore}
+	err := p.Produce(ctx, out, cc)
+	s.StreamCore = p.StreamCore
+	return err
+}
+
+// Exchange implements vgirpc.ExchangeState.
+func (s *ExchStateNC) Exchange(ctx context.Context, input arrow.RecordBatch, out *vgirpc.OutputCollector, cc *vgirpc.CallContext) error {
+	p := ExchState{s.StreamCore}
+	err := p.Exchange(ctx, input, out, cc)
+	s.StreamCore = p.StreamCore
+	return err
+}
+
+// StateNonce returns the stream nonce of a scripted state (0 for anything else).
+func StateNonce(state interface{}) int64 {
+	switch s := state.(type) {
+	case *ProdState:
+		return s.S.Nonce
+	case *ExchState:
+		return s.S.Nonce
+	case *ProdStateNC:
+		return s.S.Nonce
+	case *ExchStateNC:
+		return s.S.Nonce
+	}
+	return 0
 }
 
 // PadFor is the pad string of a turn.
@@ -505,8 +542,14 @@ func streamResult(s *Script, dyn bool, kind string) *vgirpc.StreamResult {
 	}
 	if kind == "producer" {
 		res.State = &ProdState{core}
+		if s.NoHook {
+			res.State = &ProdStateNC{core}
+		}
 	} else {
 		res.State = &ExchState{core}
+		if s.NoHook {
+			res.State = &ExchStateNC{core}
+		}
 		res.InputSchema = InSchema
 	}
 	if s.Header {
